@@ -318,7 +318,13 @@ fn try_gen_op(m: &Model, rng: &mut Rng, prof: &Profile, home: &[Lid]) -> Option<
                 data: if rng.pct(60) { Some(rng.pick(&PI_DATA).to_string()) } else { None },
             },
             8 => Op::NewAttr { name: gen_name(rng), value: rng.pick(&ATTR_VALUES).to_string() },
-            _ => Op::NewNs { prefix: gen_prefix(rng), uri: gen_uri(rng) },
+            _ => {
+                // only the default namespace can be undeclared: a non-empty prefix is never
+                // bound to the empty namespace name (such a node has no XML representation)
+                let prefix = gen_prefix(rng);
+                let uri = if prefix.is_empty() { gen_uri(rng) } else { rng.pick_str(&URIS).to_string() };
+                Op::NewNs { prefix, uri }
+            }
         }),
         1 => {
             let fragment = rng.pct(35);
@@ -523,13 +529,25 @@ fn try_gen_op(m: &Model, rng: &mut Rng, prof: &Profile, home: &[Lid]) -> Option<
         }
         _ => {
             let n = p.any(rng)?;
-            Some(match rng.below(4) {
+            Some(match rng.below(10) {
                 0 => Op::RemoveInsignificantWhitespace { n },
-                1 => Op::CreateMissingPrefixes { n },
-                2 => Op::DeduplicateNamespaces { n },
-                _ => {
+                1 => Op::DeduplicateNamespaces { n },
+                2 => {
                     let e = p.kind(rng, K::Elem)?;
                     Op::NewDocWithElement { n: e }
+                }
+                3 => Op::CreateMissingPrefixes { n },
+                4 | 5 | 6 => {
+                    // repair a whole tree
+                    let r = m.root_of(n);
+                    Op::CreateMissingPrefixes { n: r }
+                }
+                _ => {
+                    // repair a nested element (one that has element children, if possible)
+                    let e = p
+                        .of(rng, |l| m.k(l) == K::Elem && m.n(l).parent.is_some() && m.n(l).kids.iter().any(|k| m.k(*k) == K::Elem))
+                        .or_else(|| p.kind(rng, K::Elem))?;
+                    Op::CreateMissingPrefixes { n: e }
                 }
             })
         }
